@@ -241,14 +241,8 @@ def scenario(py, code, mode, results):
     return dict(mode=mode, status=status, reached=hooks.reached, obligations=list(c.obligations), solver_time=c.solver_time)
 
 
-def run(ctx):
-    py = load()
-    ctx.under_contract("pyins.filters.run_feedback_filter (prologue, while loop ordinal 0 cut, epilogue)",
-                       "contract stubs: strapdown.Integrator.* (C02), Measurement.compute_matrices (C06), filters._correct_increments, kalman.correct, filters._compute_sd, ... (numeric payloads opaque)")
-    ctx.trust("z3 (QF_UFLIRA with instantiated sortedness)", "numpy documented behaviour of hstack/unique/sort/boolean mask/append/searchsorted (contract stubs)",
-              "Integrator contract (C02), compute_matrices contract (C06)")
-    ctx.assume("Increments schema: strictly increasing stamps, dt > 0, initial time < first stamp", "induction over loop iterations (paper argument over the per-iteration obligations)",
-               "'finite' beyond division by zero not modelled (A1)")
+def _scheduling(ctx, py):
+    """the cut loop on z3 terms: every mode of the measurements argument, every path"""
     code, info = build(py)
     ctx.notes.append(dict(loop_cut=info))
     t0 = time.time()
@@ -284,11 +278,22 @@ def run(ctx):
             native = _replay(py, name, cex, mode)
         ctx.add(Ob("C09." + name, "c", st, "z3", solver_s / max(1, len(agg)), "%s [%d path instances; measurements=%s]" % (detail, count, mode),
                    cex=cex, native=native))
+
+
+def run(ctx):
+    py = load()
+    ctx.under_contract("pyins.filters.run_feedback_filter (prologue, while loop ordinal 0 cut, epilogue)",
+                       "contract stubs: strapdown.Integrator.* (C02), Measurement.compute_matrices (C06), filters._correct_increments, kalman.correct, filters._compute_sd, ... (numeric payloads opaque)")
+    ctx.trust("z3 (QF_UFLIRA with instantiated sortedness)", "numpy documented behaviour of hstack/unique/sort/boolean mask/append/searchsorted (contract stubs)",
+              "Integrator contract (C02), compute_matrices contract (C06)")
+    ctx.assume("Increments schema: strictly increasing stamps, dt > 0, initial time < first stamp", "induction over loop iterations (paper argument over the per-iteration obligations)",
+               "'finite' beyond division by zero not modelled (A1)")
+    ctx.guard(_scheduling, ctx, py)
     from props import helpers
-    helpers.compute_sd(ctx, py, "C09")
-    helpers.correct_increments_schema(ctx, py, "C09")
-    helpers.interpolate_pva(ctx, py, "C09")
-    helpers.numpy_contracts_standin(ctx, py, "C09")
+    ctx.guard(helpers.compute_sd, ctx, py, "C09")
+    ctx.guard(helpers.correct_increments_schema, ctx, py, "C09")
+    ctx.guard(helpers.interpolate_pva, ctx, py, "C09")
+    ctx.guard(helpers.numpy_contracts_standin, ctx, py, "C09")
     ctx.guard(_standin, ctx, py)
 
     # "exactly once" rests on the measurement models' contract "None iff the time is absent from the table" (C06), re-established here
